@@ -2,6 +2,7 @@ package sym
 
 import (
 	"fmt"
+	"os"
 	"go/constant"
 	"go/token"
 	"go/types"
@@ -139,6 +140,9 @@ func (p *Path) runtimePanic(msg string) {
 	at := ""
 	if n := len(p.stack); n > 0 {
 		at = p.stack[n-1].String()
+	}
+	if os.Getenv("GOSYMX_DEBUG") != "" {
+		fmt.Fprintf(os.Stderr, "runtime panic: %s\n%s", msg, p.stackString())
 	}
 	panic(&goPanic{v: Iface{T: p.E.tString, V: msg}, msg: "runtime error: " + msg, at: at})
 }
@@ -447,7 +451,7 @@ func (fr *frame) visit(instr ssa.Instruction) int {
 	case *ssa.Next:
 		fr.set(instr, p.next(fr.get(instr.Iter), instr))
 	case *ssa.FieldAddr:
-		ptr := fr.get(instr.X).(*Value)
+		ptr := p.concretePtr(fr.get(instr.X))
 		if ptr == nil {
 			p.runtimePanic("invalid memory address or nil pointer dereference")
 		}
